@@ -325,7 +325,7 @@ func vpBuildXR(a []int) vpCase {
 				}
 				x := *d
 				x.XRHeader = XRHeader{}
-				return x == cp && d.XRHeader.BlockType == 6 && d.XRHeader.BlockLength == 9 && uint8(d.XRHeader.TypeSpecific) == ts
+				return x == cp && d.XRHeader.BlockType == 6 && d.XRHeader.BlockLength == 9 && uint8(d.XRHeader.TypeSpecific)&0xF8 == ts
 			})
 		case 7:
 			m := &VoIPMetricsReportBlock{SSRC: vpU32(), LossRate: vpU8(), DiscardRate: vpU8(), BurstDensity: vpU8(), GapDensity: vpU8(),
